@@ -84,10 +84,31 @@ impl Sub for Spherical {
         let h = refimpl::keys::decode_pk(&key.pk_bytes, n).map_err(|e| Fail::new("sphere:pk", format!("public key bytes do not parse: {:?}", e)))?;
         let (f, g, cf, cg) = key.sk.fg();
 
-        // ---- the history: signatures over distinct messages, observed through their bytes only
+        // ---- the history: signatures over distinct messages, observed through their bytes only.
+        // Every signing thread first signs once with ANOTHER key of the same variant held in a local
+        // slot and then overwrites that slot with the key under test ("key rotation in place"): the
+        // distribution for a fixed key must not depend on which key the thread used before, even
+        // when the new key object lives at the old one's address.
+        let decoy = api::key(n, crate::util::seed32(mix(c.msg_base ^ 0xDEC0)));
+        thread_local! {
+            static SLOT: std::cell::RefCell<Option<(u64, api::Sk)>> = const { std::cell::RefCell::new(None) };
+        }
+        let tag = mix(c.msg_base ^ n as u64 ^ crate::util::fnv(&seed));
         let sigs: Vec<Result<Vec<f64>, Fail>> = par_map(count, 16, |j| {
             let msg = (c.msg_base ^ mix(j as u64)).to_le_bytes().to_vec();
-            let sig = api::sign_with(&msg, &key.sk, Box::new(crate::util::chacha(mix(c.msg_base) ^ j as u64))).to_bytes();
+            let sig = SLOT.with(|slot| {
+                let mut slot = slot.borrow_mut();
+                if slot.as_ref().map(|(t, _)| *t) != Some(tag) {
+                    // first use on this thread: put the decoy into the slot, sign once with it, then
+                    // replace it in place by the key under test
+                    *slot = Some((0, decoy.sk.clone()));
+                    let _ = api::sign(b"decoy", &slot.as_ref().unwrap().1);
+                    let s = slot.as_mut().unwrap();
+                    s.0 = tag;
+                    s.1 = key.sk.clone();
+                }
+                api::sign_with(&msg, &slot.as_ref().unwrap().1, Box::new(crate::util::chacha(mix(c.msg_base) ^ j as u64))).to_bytes()
+            });
             let s2 = codec::decode(&sig[41..], n).ok_or_else(|| Fail::new("sphere:malformed", "an honest signature does not decompress"))?;
             let mut r_cat_m = sig[1..41].to_vec();
             r_cat_m.extend_from_slice(&msg);
@@ -225,7 +246,7 @@ impl Sub for Spherical {
 }
 
 const META: Meta = Meta {
-    rule: "proptest (variant, key seed, message base); for each key N signatures over distinct messages are made with a seeded uniform byte stream (SignRng hook) and observed through their bytes only: s2 decoded, s1 = c - s2 h recomputed. Directions come from the secret basis: the 2n orthonormal Gram-Schmidt directions of [[g,-f],[G,-F]] (rows in the ffLDL tree's bit-reversed rotation order) and the 2n normalised basis rows. Invariants: every signature within floor(beta^2); pooled second moment = sigma^2 within z = 6.5; second moment per octile bin of ||b~_i|| = sigma^2 within z = 6.5; for every single direction the second moment within the exact chi-square_N interval and the mean within a normal interval, Bonferroni-corrected to 1e-9 per key. Non-trivial = a key with N >= 1000 signatures (counted once) plus its 8 direction bins; distinct by (variant, seed).",
+    rule: "proptest (variant, key seed, message base); for each key N signatures over distinct messages are made with a seeded uniform byte stream (SignRng hook), by threads that first signed once with another key of the same variant held in the same memory slot (key rotation in place), and observed through their bytes only: s2 decoded, s1 = c - s2 h recomputed. Directions come from the secret basis: the 2n orthonormal Gram-Schmidt directions of [[g,-f],[G,-F]] (rows in the ffLDL tree's bit-reversed rotation order) and the 2n normalised basis rows. Invariants: every signature within floor(beta^2); pooled second moment = sigma^2 within z = 6.5; second moment per octile bin of ||b~_i|| = sigma^2 within z = 6.5; for every single direction the second moment within the exact chi-square_N interval and the mean within a normal interval, Bonferroni-corrected to 1e-9 per key. Non-trivial = a key with N >= 1000 signatures (counted once) plus its 8 direction bins; distinct by (variant, seed).",
     assumptions: &[
         "the honest distribution differs from the ideal spherical Gaussian only by the norm rejection (about 1e-6) and the compression rejection (about 1e-7), far below the resolution of these tests, so tolerances are purely statistical",
         "design false-alarm probability per key: 2 * 8e-11 * 9 (pooled and bins) + 1e-9 (directions) < 3e-9; the run is a deterministic function of VERIF_SEED",
